@@ -55,7 +55,7 @@ def fresh_name(rng: random.Random, used: set[str], prefix: str = "") -> str:
 
 LITERALS = [(0, 0), (1, 0), (2, 0), (3, 0), (7, 0), (10, 0), (5, -1), (25, -2), (15, -1), (275, -2),
             (1, -3), (25, 1), (1, 3), (314159, -5), (6022, 12), (1, -12), (123456789012345678, -17),
-            (9, -1), (4, 0), (12, -1), (1, -1)]
+            (9, -1), (4, 0), (12, -1), (1, -1), (1, -10), (25, -21)]
 
 
 EXTREME = [(6022, 20), (1, 300), (1, -300), (7, 25), (581, 21)]
@@ -381,6 +381,21 @@ def refactored(m: "GModel", rng: random.Random) -> "GModel":
     return sm
 
 
+def edited(m: "GModel", rng: random.Random) -> "GModel":
+    """the same model after an edit of some right-hand sides that keeps every name and, line by line, the set of
+    names read: `e` becomes `2*e`, `-(e)` or `e - 1` (an edit-and-reload in one session)"""
+    import copy
+    sm = copy.deepcopy(m)
+    names = [n for n in m.order if sexp.fv(m.assigns[n][0])]
+    if not names:
+        return sm
+    for n in (rng.sample(names, max(1, len(names) // 2))):
+        e, comp = m.assigns[n]
+        e2 = [("mul", ("num", 2, 0), e), ("neg", e), ("sub", e, ("num", 1, 0)), ("mul", e, ("num", 5, -1))][rng.randrange(4)]
+        sm.assigns[n] = (e2, comp)
+    return sm
+
+
 def render_block(kind, c, lines, rng=None):
     names = ", ".join(f'"{x}"' for x in c) if isinstance(c, tuple) else (f'"{c}"' if c else "")
     if kind in ("states", "parameters"):
@@ -427,6 +442,10 @@ def gen_value(rng, cfg: ModelCfg):
         if j < 0.85:
             return ("pow", ("num", 2, 0), ("neg", ("num", 3, 0)))
         return ("add", lit(rng), ("div", ("num", 1, 0), ("num", 8, 0)))
+    if rng.random() < 0.12:
+        # values a printer writes in exponent notation (exponents ending in 0 included: 1e-10, 2.5e-20, 1.5e20)
+        v = ("num",) + sexp.norm_num(*rng.choice([(1, -10), (25, -21), (3, -30), (15, 19), (1, 20), (5, -7), (1, -100), (375, -12)]))
+        return ("neg", v) if rng.random() < 0.2 else v
     v = ("num",) + sexp.norm_num(rng.randint(1, 3000), rng.randint(-3, -1))
     return ("neg", v) if rng.random() < 0.3 else v
 
